@@ -21,6 +21,7 @@ pub struct HistCfg {
     pub drain: bool,
     pub crosscheck_every: usize,
     pub dual: bool,
+    pub adaptive: bool,
 }
 
 fn log_uniform(w: &mut World, lo_bits: u32, hi_bits: u32) -> u128 {
@@ -45,7 +46,7 @@ pub struct Scenario {
 }
 
 /// Build a fresh world with one pool; returns the scenario description.
-pub fn build_world(seed: u64, tokens: &str, rewards: bool, rec: &mut Recorder) -> (World, Scenario) {
+pub fn build_world(seed: u64, tokens: &str, rewards: bool, adaptive: bool, rec: &mut Recorder) -> (World, Scenario) {
     let mut w = World::new(seed);
     let proto = pick(&mut w, &[0u16, 300, 1000, 2500]);
     w.init_config("C1", proto);
@@ -99,8 +100,33 @@ pub fn build_world(seed: u64, tokens: &str, rewards: bool, rec: &mut Recorder) -
         }
     };
     let v2 = tokens != "spl" || w.rng.gen_bool(0.3);
-    let ix = if v2 { w.ix_init_pool_v2("P1", "C1", "A", "B", spacing, sp) } else { w.ix_init_pool("P1", "C1", "A", "B", spacing, sp) };
-    w.must_ix(&ix);
+    if adaptive {
+        // an adaptive-fee pool with random valid constants
+        let divisors: Vec<u16> = (1..=spacing.min(512)).filter(|d| spacing % d == 0).collect();
+        let gs = pick(&mut w, &divisors);
+        let filter = pick(&mut w, &[1u16, 5, 30, 60]);
+        let decay = filter + pick(&mut w, &[1u16, 10, 120, 600]);
+        let max_acc_cap = (u32::MAX as u64 / gs as u64).min(u32::MAX as u64) as u32;
+        let c = crate::world2::AfConstants {
+            filter_period: filter,
+            decay_period: decay,
+            reduction_factor: pick(&mut w, &[0u16, 1, 500, 5000, 9999]),
+            adaptive_fee_control_factor: pick(&mut w, &[0u32, 1, 100, 4000, 50000, 99999]),
+            max_volatility_accumulator: pick(&mut w, &[0u32, 10_000, 35_000, 350_000, 3_000_000, max_acc_cap]).min(max_acc_cap),
+            tick_group_size: gs,
+            major_swap_threshold_ticks: (pick(&mut w, &[1u32, 8, 64, 1000]) as i32).min(spacing as i32 * 88) as u16,
+        };
+        let funder = w.funder;
+        let del = w.users["U3"];
+        let ix = w.ix_init_adaptive_fee_tier("C1", 1024, spacing, funder, del, fee_rate, &c);
+        w.must_ix(&ix);
+        let te = if w.rng.gen_bool(0.25) { Some((w.now + pick(&mut w, &[1i64, 50, 5000])) as u64) } else { None };
+        let ix = w.ix_init_pool_adaptive("P1", "C1", "A", "B", 1024, spacing, sp, funder, te);
+        w.must_ix(&ix);
+    } else {
+        let ix = if v2 { w.ix_init_pool_v2("P1", "C1", "A", "B", spacing, sp) } else { w.ix_init_pool("P1", "C1", "A", "B", spacing, sp) };
+        w.must_ix(&ix);
+    }
     w.pools.get_mut("P1").unwrap().dynamic = w.rng.gen_bool(0.5);
     // fee-growth accumulators start anywhere in u128, often just below wrap-around (indistinguishable
     // from a long prior history: no tick or position exists yet)
@@ -252,6 +278,20 @@ fn random_limit(w: &mut World, sc: &Scenario, pool: &str, a_to_b: bool) -> u128 
             return p;
         }
     }
+    if w.rng.gen_bool(0.12) {
+        // strictly inside a tick whose index is a multiple of the tick spacing (tick-group boundary tick)
+        let spc = w.pools[pool].spacing as i32;
+        let t = w.pool_tick(pool);
+        let k = w.rng.gen_range(1..6) * spc;
+        let tt = if a_to_b { (t - k).div_euclid(spc) * spc } else { (t + k).div_euclid(spc) * spc };
+        if tt > MIN_TICK && tt < MAX_TICK {
+            let (a, b) = (price_of(tt), price_of(tt + 1));
+            let p = a + 1 + w.rng.gen::<u128>() % (b - a - 1).max(1);
+            if (a_to_b && p < sp) || (!a_to_b && p > sp) {
+                return p;
+            }
+        }
+    }
     match w.rng.gen_range(0..6) {
         0 | 1 | 2 => 0,
         3 => {
@@ -380,7 +420,7 @@ pub fn random_step(w: &mut World, sc: &Scenario, rec: &mut Recorder) {
             rec.exec(w, &ix, false, json!(null));
         }
         94..=96 => {
-            let dt = pick(w, &[0i64, 1, 1, 10, 100, 3600, 86400, 100_000_000]);
+            let dt = pick(w, &[0i64, 1, 1, 4, 10, 29, 61, 100, 601, 3601, 86400, 100_000_000]);
             rec.tick_clock(w, dt);
         }
         _ => {
@@ -509,7 +549,7 @@ pub fn run(cfg: &HistCfg, rec: &mut Recorder) {
     rec.dual = cfg.dual;
     for h in 0..cfg.histories {
         let seed = cfg.seed.wrapping_mul(1_000_003).wrapping_add(h as u64);
-        let (mut w, sc) = build_world(seed, &cfg.tokens, cfg.rewards, rec);
+        let (mut w, sc) = build_world(seed, &cfg.tokens, cfg.rewards, cfg.adaptive, rec);
         for s in 0..cfg.steps {
             random_step(&mut w, &sc, rec);
             if cfg.drain && (s + 1) % 50 == 0 {
